@@ -658,6 +658,14 @@ def rule_default_orders(ctx: Ctx, rule: str = "tactic-table") -> None:
     for modbase in ("polyhedra", "polyhedral_iocontract"):
         m = prog.module(modbase)
         v = m.assigns.get("TACTICS_ORDER")
+        if v is None and "TACTICS_ORDER" in m.imports:
+            # the module uses another module's constant instead of a copy of it: that one is judged under its own name
+            tgt = m.imports["TACTICS_ORDER"]
+            src = prog.modules.get(tgt.rpartition(".")[0])
+            if src is not None and "TACTICS_ORDER" in src.assigns:
+                n += 1
+                ctx.ok(rule, modbase + ".TACTICS_ORDER", "%s.TACTICS_ORDER is %s" % (modbase, tgt), nontrivial=False)
+                continue
         if v is None:
             raise AnalysisError("anchor vanished: %s.TACTICS_ORDER" % modbase)
         if not isinstance(v, (ast.List, ast.Tuple)) or not all(isinstance(e, ast.Constant) for e in v.elts):
@@ -698,6 +706,8 @@ def rule_tl_operators(ctx: Ctx, rule: str = "termlist-operators") -> None:
     construct = "TermList.__le__ forwards to self.refines(other)"
     if fwd == "refines":
         ctx.ok(rule, "TermList.__le__", construct)
+    elif fwd.startswith("!"):
+        ctx.violation(rule, "TermList.__le__", construct, fwd[1:], where=prog.func("TermList.__le__").where)
     else:
         ctx.violation(rule, "TermList.__le__", construct, "forwards to %s" % fwd, where=prog.func("TermList.__le__").where)
     rule_list_helpers(ctx)
